@@ -274,42 +274,11 @@ func checkC05(c *Ctx) {
 	compareModes(c, "schedule", cases, meta, RunOpt{}, RunOpt{NoReg: true}, func(int) string { return "registers-observable" })
 
 	// deep nesting and many parameters beyond the model-checked bound (still from the same instantiation)
-	var deep [][]string
-	var dmeta []map[string]any
-	for _, k := range []int{0, 7, 8, 9, 12} {
-		for _, depthN := range []int{8, 9, 10} {
-			var ops []regOp
-			ops = append(ops, regOp{Op: "call", K: k})
-			for i := 0; i < depthN; i++ {
-				ops = append(ops, regOp{Op: "enter", Reg: true})
-			}
-			for _, kind := range []string{"end", "break", "return", "error"} {
-				h := append([]regOp{}, ops...)
-				switch kind {
-				case "end", "break":
-					for i := 0; i < depthN; i++ {
-						h = append(h, regOp{Op: "exit", Kind: kind})
-					}
-					h = append(h, regOp{Op: "return"})
-				case "return":
-					h = append(h, regOp{Op: "return"})
-				case "error":
-					h = append(h, regOp{Op: "error"})
-				}
-				// repeat so that leaks accumulate across inputs of one session
-				var rep []regOp
-				for i := 0; i < 10; i++ {
-					rep = append(rep, h...)
-				}
-				in := instantiateSchedule(rep, int(c.Seed))
-				deep = append(deep, in)
-				dmeta = append(dmeta, map[string]any{"params": k, "nesting": depthN, "exit": kind})
-				c.Case(strings.Join(in, "\n"), true)
-			}
-		}
+	deep, dmeta := deepRegisterSessions(int(c.Seed))
+	for _, in := range deep {
+		c.Case(strings.Join(in, "\n"), true)
 	}
 	compareModes(c, "deep", deep, dmeta, RunOpt{}, RunOpt{NoReg: true}, func(int) string { return "registers-observable" })
-
 	// 3. random generated programs, whole program as one input
 	n := c.Pick(600, 20000)
 	var rc [][]string
@@ -366,4 +335,41 @@ func replayC05(rp map[string]any) (bool, string) {
 		}
 	}
 	return true, ""
+}
+
+// deepRegisterSessions: functions with 0..12 integer parameters around 8..10 nested counted loops, left by every kind of
+// exit, each repeated 10 times in one session (so that a leak accumulates across inputs).
+func deepRegisterSessions(seed int) ([][]string, []map[string]any) {
+	var deep [][]string
+	var dmeta []map[string]any
+	for _, k := range []int{0, 7, 8, 9, 12} {
+		for _, depthN := range []int{8, 9, 10} {
+			var ops []regOp
+			ops = append(ops, regOp{Op: "call", K: k})
+			for i := 0; i < depthN; i++ {
+				ops = append(ops, regOp{Op: "enter", Reg: true})
+			}
+			for _, kind := range []string{"end", "break", "return", "error"} {
+				h := append([]regOp{}, ops...)
+				switch kind {
+				case "end", "break":
+					for i := 0; i < depthN; i++ {
+						h = append(h, regOp{Op: "exit", Kind: kind})
+					}
+					h = append(h, regOp{Op: "return"})
+				case "return":
+					h = append(h, regOp{Op: "return"})
+				case "error":
+					h = append(h, regOp{Op: "error"})
+				}
+				var rep []regOp
+				for i := 0; i < 10; i++ {
+					rep = append(rep, h...)
+				}
+				deep = append(deep, instantiateSchedule(rep, seed))
+				dmeta = append(dmeta, map[string]any{"params": k, "nesting": depthN, "exit": kind})
+			}
+		}
+	}
+	return deep, dmeta
 }
